@@ -18,7 +18,7 @@ var notApplicable = map[string]string{
 var notYetBuilt = map[string]string{}
 
 func init() {
-	for _, id := range []string{"C10"} {
+	for _, id := range []string{} {
 		notYetBuilt[id] = "static check designed (DESIGN.md §4) but not yet built and validated in this round; not claimed until it is"
 	}
 }
